@@ -508,12 +508,304 @@ def x_window_read(fn):
     return lines
 
 
+# ---------------------------------------------------------------- whole function bodies (round 5)
+#
+# A small fail-closed compiler from Python statements to Gallina: assignments and augmented assignments to declared
+# variables, `if` (one or several assigned variables), `for v in range(..)` / `for v in <list parameter>` (a fold_left
+# over zrange / the list, state = the one variable the body assigns), `while` (a fuelled Fixpoint, state = the assigned
+# variables), `return`.  Expressions go through zexpr / qexpr / qbool above, selected by the declared type of the
+# assigned variable.  Anything else raises Unrecognised.
+
+class Body:
+    def __init__(self, name, vars_, zenv, qenv, benv, lists=(), bcall=None, qleaf=None):
+        self.name = name
+        self.vars = dict(vars_)        # python text of an assignable -> (gallina name, 'Z' | 'Q' | 'B')
+        self.zenv = dict(zenv)         # python text -> gallina (integer valued leaves, parameters)
+        self.qenv = dict(qenv)
+        self.benv = dict(benv)
+        self.lists = dict(lists)       # python text of an iterable parameter -> gallina list
+        self.bcall = bcall             # hook: ast.Call -> gallina bool or None
+        self.qleaf = qleaf             # hook: loop variables in scope -> extra qenv entries
+        self.loopvars = []
+        self.aux = []                  # auxiliary Fixpoints (while loops)
+        self.params = ''               # binder text repeated in auxiliary definitions
+        self.param_names = ''
+
+    # ---- expressions
+    def ze(self):
+        env = dict(self.zenv)
+        for k, (g, t) in self.vars.items():
+            if t == 'Z':
+                env[k] = g
+        for v in self.loopvars:
+            env[v] = v
+        return env
+
+    def qe(self):
+        env = dict(self.qenv)
+        for k, (g, t) in self.vars.items():
+            if t == 'Q':
+                env[k] = g
+        if self.qleaf:
+            env.update(self.qleaf(self.loopvars))
+        return env
+
+    def be(self):
+        env = dict(self.benv)
+        for k, (g, t) in self.vars.items():
+            if t == 'B':
+                env[k] = g
+        return env
+
+    def bexpr(self, node):
+        key = un(node)
+        be = self.be()
+        if key in be:
+            return be[key]
+        if isinstance(node, ast.UnaryOp) and isinstance(node.op, ast.Not):
+            return '(negb %s)' % self.bexpr(node.operand)
+        if isinstance(node, ast.BoolOp):
+            op = 'andb' if isinstance(node.op, ast.And) else 'orb'
+            out = self.bexpr(node.values[0])
+            for v in node.values[1:]:
+                out = '(%s %s %s)' % (op, out, self.bexpr(v))
+            return out
+        if isinstance(node, ast.Call):
+            if is_np(node.func, 'ones', 'zeros') and any(k.arg == 'dtype' and un(k.value) in ('bool', 'np.bool_') for k in node.keywords):
+                return 'true' if node.func.attr == 'ones' else 'false'
+            if self.bcall:
+                r = self.bcall(self, node)
+                if r is not None:
+                    return r
+            raise U('%s: boolean call %s' % (self.name, key[:60]))
+        if isinstance(node, ast.Compare) and len(node.ops) == 1:
+            try:
+                return zcond(node, self.ze())
+            except (U, KeyError):
+                return qbool(node, self.qe(), be)
+        raise U('%s: boolean expression %s' % (self.name, key[:60]))
+
+    def expr(self, node, typ):
+        if typ == 'Z':
+            return zexpr(node, self.ze())
+        if typ == 'Q':
+            return qexpr(node, self.qe())
+        return self.bexpr(node)
+
+    # ---- statements
+    def assigned(self, stmts):
+        out = []
+        for st in stmts:
+            if isinstance(st, (ast.Assign, ast.AugAssign)):
+                t = st.targets[0] if isinstance(st, ast.Assign) else st.target
+                if isinstance(st, ast.Assign) and len(st.targets) != 1:
+                    raise U('%s: multiple targets' % self.name)
+                k = un(t)
+                if k not in self.vars:
+                    raise U('%s: assignment to %s' % (self.name, k[:40]))
+                if k not in out:
+                    out.append(k)
+            elif isinstance(st, ast.If):
+                for k in self.assigned(st.body) + self.assigned(st.orelse):
+                    if k not in out:
+                        out.append(k)
+            elif isinstance(st, (ast.For, ast.While)):
+                if st.orelse:
+                    raise U('%s: loop else' % self.name)
+                for k in self.assigned(st.body):
+                    if k not in out:
+                        out.append(k)
+            elif isinstance(st, ast.Return):
+                raise U('%s: return inside a block' % self.name)
+            else:
+                raise U('%s: statement %s' % (self.name, un(st)[:50]))
+        return out
+
+    def pack(self, keys):
+        g = [self.vars[k][0] for k in keys]
+        return g[0] if len(g) == 1 else '(%s)' % ', '.join(g)
+
+    def bind(self, keys, value, k):
+        if len(keys) == 1:
+            return 'let %s := %s in\n%s' % (self.vars[keys[0]][0], value, k)
+        return "let '%s := %s in\n%s" % (self.pack(keys), value, k)
+
+    def block(self, stmts, k):
+        out = k
+        for st in reversed(stmts):
+            out = self.stmt(st, out)
+        return out
+
+    def stmt(self, st, k):
+        if isinstance(st, ast.Assign):
+            key = un(st.targets[0])
+            self.assigned([st])
+            g, typ = self.vars[key]
+            return 'let %s := %s in\n%s' % (g, self.expr(st.value, typ), k)
+        if isinstance(st, ast.AugAssign):
+            key = un(st.target)
+            self.assigned([st])
+            g, typ = self.vars[key]
+            if typ == 'Z':
+                if type(st.op) not in P.BIN:
+                    raise U('%s: operator' % self.name)
+                return 'let %s := (%s %s %s) in\n%s' % (g, P.BIN[type(st.op)], g, self.expr(st.value, 'Z'), k)
+            if typ == 'B':
+                op = {ast.BitAnd: 'andb', ast.BitOr: 'orb', ast.BitXor: 'xorb'}.get(type(st.op))
+                if op is None:
+                    raise U('%s: boolean operator' % self.name)
+                return 'let %s := (%s %s %s) in\n%s' % (g, op, g, self.expr(st.value, 'B'), k)
+            raise U('%s: augmented assignment on %s' % (self.name, key))
+        if isinstance(st, ast.If):
+            keys = self.assigned([st])
+            if not keys:
+                raise U('%s: if without effect' % self.name)
+            res = self.pack(keys)
+            val = 'if %s then\n%s\nelse\n%s' % (self.bexpr(st.test), self.block(st.body, res), self.block(st.orelse, res))
+            return self.bind(keys, '(%s)' % val, k)
+        if isinstance(st, ast.For):
+            keys = self.assigned([st])
+            if len(keys) != 1 or not isinstance(st.target, ast.Name):
+                raise U('%s: for loop state' % self.name)
+            v = st.target.id
+            if v in self.loopvars or v in self.ze():
+                raise U('%s: loop variable %s shadows' % (self.name, v))
+            it = st.iter
+            if un(it) in self.lists:
+                lst = self.lists[un(it)]
+            elif isinstance(it, ast.Call) and un(it.func) == 'range' and not it.keywords and len(it.args) in (1, 2):
+                lo = '0' if len(it.args) == 1 else zexpr(it.args[0], self.ze())
+                hi = zexpr(it.args[-1], self.ze())
+                lst = '(zrange %s %s)' % (lo, hi)
+            else:
+                raise U('%s: iterable %s' % (self.name, un(it)[:40]))
+            g = self.vars[keys[0]][0]
+            self.loopvars.append(v)
+            body = self.block(st.body, g)
+            self.loopvars.pop()
+            return 'let %s := fold_left (fun %s %s =>\n%s) %s %s in\n%s' % (g, g, v, body, lst, g, k)
+        if isinstance(st, ast.While):
+            keys = self.assigned([st])
+            if self.loopvars:
+                raise U('%s: while inside a loop' % self.name)
+            gs = [self.vars[q][0] for q in keys]
+            tys = [{'Z': 'Z', 'Q': 'Q', 'B': 'bool'}[self.vars[q][1]] for q in keys]
+            fn = 'gen_%s_while%d' % (self.name, len(self.aux))
+            call = '%s fuel %s %s' % (fn, self.param_names, ' '.join(gs))
+            res = self.pack(keys)
+            body = self.block(st.body, call)
+            self.aux.append('Fixpoint %s (fuel : nat) %s %s : %s :=\n  match fuel with\n  | O => %s\n  | S fuel =>\n    if %s then\n%s\n    else %s\n  end.'
+                            % (fn, self.params, ' '.join('(%s : %s)' % gt for gt in zip(gs, tys)), ' * '.join(tys), res,
+                               self.bexpr(st.test), body, res))
+            return self.bind(keys, '(%s)' % call, k)
+        raise U('%s: statement %s' % (self.name, un(st)[:50]))
+
+
+def indent(text, n=2):
+    return '\n'.join(' ' * n + ln for ln in text.split('\n'))
+
+
+def b_set_use_caps(fn):
+    """the whole body of set_use_caps as one Gallina function of the starting use_caps"""
+    b = body_of(fn)
+    if not (b and isinstance(b[-1], ast.Return) and un(b[-1].value) == 'polygon.use_caps'):
+        raise U('set_use_caps: return')
+
+    def qleaf(lv):
+        env = {}
+        for a in lv:
+            env['polygon.cm[%s]' % a] = '(cm %s)' % a
+            for c in lv:
+                env['np.sum((polygon.x[%s, :] - polygon.x[%s, :]) ** 2)' % (a, c)] = '(d2 %s %s)' % (a, c)
+        return env
+
+    def bcall(self, node):
+        if un(node.func) == 'is_cap_used' and len(node.args) == 2 and not node.keywords:
+            return '(gen_is_cap_used %s %s)' % (zexpr(node.args[0], self.ze()), zexpr(node.args[1], self.ze()))
+        return None
+    B = Body('set_use_caps', {'polygon.use_caps': ('u', 'Z'), 't2': ('t2', 'Q')}, {'polygon.ncaps': 'ncaps'}, {'tol': 'tol'},
+             {'add': 'add', 'allow_doubles': 'allow_doubles', 'allow_neg_doubles': 'allow_neg'},
+             lists={'index_list': 'index_list'}, bcall=bcall, qleaf=qleaf)
+    text = B.block(b[:-1], 'u')
+    return ['Definition gen_set_use_caps_body (ncaps : Z) (d2 : Z -> Z -> Q) (cm : Z -> Q) (index_list : list Z)\n'
+            '    (add : bool) (tol : Q) (allow_doubles allow_neg : bool) (u : Z) : Z :=\n' + indent(text) + '.']
+
+
+def b_is_in_polygon(fn):
+    """usencaps / start value / the loop over caps of is_in_polygon, for one point (incap i = is_in_cap(x[i], cm[i], point))"""
+    b = body_of(fn)
+    keep = []
+    for st in b:
+        if isinstance(st, ast.Assign) and un(st.targets[0]) in ('usencaps', 'in_polygon'):
+            keep.append(st)
+        elif isinstance(st, ast.If) and 'usencaps' in un(st):
+            keep.append(st)
+        elif isinstance(st, ast.For) and un(st.target) == 'icap':
+            keep.append(st)
+        elif isinstance(st, ast.Return):
+            if un(st.value) != 'in_polygon' or st is not b[-1]:
+                raise U('is_in_polygon: return')
+        # everything else (attribute / column dispatch, atleast_2d) is checked by x_is_in_polygon
+
+    def bcall(self, node):
+        if un(node.func) == 'is_cap_used' and len(node.args) == 2 and not node.keywords:
+            return '(gen_is_cap_used %s %s)' % (zexpr(node.args[0], self.ze()), zexpr(node.args[1], self.ze()))
+        if un(node.func) == 'is_in_cap' and len(node.args) == 3 and not node.keywords and un(node.args[2]) == 'points':
+            a0, a1 = node.args[0], node.args[1]
+            if isinstance(a0, ast.Subscript) and un(a0.value) == "p['x']" and isinstance(a0.slice, ast.Tuple) \
+                    and len(a0.slice.elts) == 2 and un(a0.slice.elts[1]) == ':' \
+                    and isinstance(a1, ast.Subscript) and un(a1.value) == "p['cm']" and un(a1.slice) == un(a0.slice.elts[0]):
+                return '(incap %s)' % zexpr(a1.slice, self.ze())
+        return None
+    B = Body('is_in_polygon', {'usencaps': ('usencaps', 'Z'), 'in_polygon': ('in_polygon', 'B')},
+             {"p['ncaps']": 'pn', 'ncaps': 'ncaps', "p['use_caps']": 'use_caps'}, {}, {}, bcall=bcall)
+    text = B.block(keep, 'in_polygon')
+    return ['Definition gen_is_in_polygon_body (pn use_caps ncaps : Z) (incap : Z -> bool) : bool :=\n' + indent(text) + '.']
+
+
+def b_is_in_window(fn):
+    """is_in_window for ONE point: the vectorised statements of the while body (shapes checked by x_is_in_window) are
+    re-assembled into their per-point meaning and compiled: `in_polygon` is this point's entry, the selection
+    `(in_polygon == -1).nonzero()` becomes a guard, `is_in_polygon(polygons[k], points[sel], ncaps=ncaps)` is inpoly k."""
+    b = body_of(fn)
+    x_is_in_window(fn)      # shape checks
+    pre, loop, ret = [], None, None
+    for st in b:
+        if isinstance(st, ast.Assign) and un(st.targets[0]) in ('in_polygon', 'curr_polygon'):
+            pre.append(un(st))
+        elif isinstance(st, ast.While):
+            loop = st
+        elif isinstance(st, ast.Return):
+            ret = st.value
+    s0, s1, s2 = loop.body
+    sel = un(s0.value.value.func.value)                    # in_polygon == -1
+    assign = un(s1.body[1].body[0].value)                    # curr_polygon
+    src = '\n'.join(pre) + '\nwhile %s:\n    if %s:\n        if is_in_polygon(polygons[curr_polygon]):\n            in_polygon = %s\n    %s\n' % (
+        un(loop.test), sel, assign, un(s2))
+    stmts = ast.parse(src).body
+
+    def bcall(self, node):
+        if un(node.func) == 'is_in_polygon' and len(node.args) == 1 and isinstance(node.args[0], ast.Subscript) \
+                and un(node.args[0].value) == 'polygons':
+            return '(inpoly %s)' % zexpr(node.args[0].slice, self.ze())
+        return None
+    B = Body('is_in_window', {'in_polygon': ('a', 'Z'), 'curr_polygon': ('k', 'Z')}, {'npoly': 'npoly'}, {}, {}, bcall=bcall)
+    B.params = '(npoly : Z) (inpoly : Z -> bool)'
+    B.param_names = 'npoly inpoly'
+    flag = B.bexpr(ret.elts[0])
+    text = B.block(stmts, '(%s, a)' % flag)
+    return B.aux + ['Definition gen_is_in_window_body (fuel : nat) (npoly : Z) (inpoly : Z -> bool) : bool * Z :=\n' + indent(text) + '.']
+
+
 HEAD_Z = '''(* GENERATED by translate/c12.py from pydl/pydlutils/mangle.py and pydl/photoop/window.py -- do not edit *)
-From Coq Require Import ZArith QArith Qabs Bool.
+From Coq Require Import ZArith QArith Qabs Bool List.
 Open Scope Z_scope.
 
 (* a < b on rationals, as a boolean *)
 Definition gQlt (a b : Q) : bool := negb (Qle_bool b a).
+
+(* Python range(lo, hi) *)
+Definition zrange (lo hi : Z) : list Z := map (fun k => Z.add lo (Z.of_nat k)) (seq 0 (Z.to_nat (Z.sub hi lo))).
 '''
 
 HEAD_R = '''(* GENERATED by translate/c12.py from pydl/pydlutils/mangle.py (cap_distance, is_in_cap) -- do not edit *)
@@ -536,7 +828,10 @@ def generate(repo):
                              ('is_in_polygon', x_is_in_polygon(f('is_in_polygon'))),
                              ('is_in_window', x_is_in_window(f('is_in_window'))),
                              ('set_use_caps', x_set_use_caps(f('set_use_caps'))),
-                             ('window_read (balkans)', x_window_read(P.find_function(t2, 'window_read')))):
+                             ('window_read (balkans)', x_window_read(P.find_function(t2, 'window_read'))),
+                             ('whole bodies: set_use_caps; is_in_polygon and is_in_window for one point',
+                              b_set_use_caps(f('set_use_caps')) + [''] + b_is_in_polygon(f('is_in_polygon')) + ['']
+                              + b_is_in_window(f('is_in_window')))):
             z.append('(* %s *)' % title)
             z.extend(lines)
             z.append('')
@@ -545,7 +840,7 @@ def generate(repo):
             + x_angles_to_x(f('angles_to_x'))
         info['lines'] = {'is_in_polygon': f('is_in_polygon').lineno, 'set_use_caps': f('set_use_caps').lineno,
                          'cap_distance': f('cap_distance').lineno}
-    except (U, SyntaxError, OSError, KeyError) as e:
+    except (U, SyntaxError, OSError, KeyError, AttributeError, IndexError, ValueError) as e:
         info['recognised'] = False
         info['detail'].append('%s: %s' % (type(e).__name__, e))
         return None, None, info
